@@ -52,6 +52,28 @@ Section Generic.
     rewrite S, H1 in H. simpl in H. congruence.
   Qed.
 
+  Lemma gt_flip : forall x y, c x y = Gt -> c y x = Lt.
+  Proof. intros x y H. rewrite (tp_sym TP), H. reflexivity. Qed.
+
+  Lemma lt_flip : forall x y, c x y = Lt -> c y x = Gt.
+  Proof. intros x y H. rewrite (tp_sym TP), H. reflexivity. Qed.
+
+  Lemma le_lt_trans : forall x y z, c x y <> Gt -> c y z = Lt -> c x z = Lt.
+  Proof.
+    intros x y z H1 H2.
+    assert (L : c x z <> Gt) by (apply (tp_trans TP x y z); congruence).
+    destruct (c x z) eqn:E; try congruence.
+    exfalso. assert (c z y <> Gt).
+    { apply (tp_trans TP z x y); [rewrite (tp_sym TP), E; simpl; congruence | exact H1]. }
+    rewrite (tp_sym TP), H2 in H. simpl in H. congruence.
+  Qed.
+
+  Lemma lt_trans_c : forall x y z, c x y = Lt -> c y z = Lt -> c x z = Lt.
+  Proof. intros x y z H1 H2. apply le_lt_trans with y; congruence. Qed.
+
+  Lemma eq_lt_trans : forall x y z, c x y = Eq -> c y z = Lt -> c x z = Lt.
+  Proof. intros x y z H1 H2. apply le_lt_trans with y; congruence. Qed.
+
   (* ---------------------------------------------------------------------------------------- *)
   Lemma ins_perm : forall x l, Permutation (ins x l) (x :: l).
   Proof.
@@ -164,6 +186,37 @@ Section Generic.
       forall z, length (filter (eqvb z) l') = length (filter (eqvb z) l).
   Proof. intros l l' H z. rewrite H. reflexivity. Qed.
 
+  (* stability read through original positions: in the output, an earlier element is strictly
+     smaller, or equivalent with a smaller original position *)
+  Variable pos : A -> nat.
+  Definition before (x y : A) : Prop := c x y = Lt \/ (c x y = Eq /\ pos x < pos y).
+
+  Lemma ins_sorted_pos : forall x l,
+      StronglySorted before l -> Forall (fun y => pos x < pos y) l -> StronglySorted before (ins x l).
+  Proof.
+    induction l as [|y t IH]; intros H P; simpl.
+    - repeat constructor.
+    - inversion H as [|? ? Ht Hy]; subst. inversion P as [|? ? Py Pt]; subst.
+      assert (CASE : forall a, before y a -> c x y <> Gt -> pos x < pos a -> before x a).
+      { intros a [Hl|[He Hp]] Hle Hpa.
+        - left. apply le_lt_trans with y; assumption.
+        - destruct (c x y) eqn:E; try congruence.
+          + right. split; [apply eq_trans_c with y; assumption | exact Hpa].
+          + left. apply lt_eq_trans with y; assumption. }
+      unfold ltb. destruct (c y x) eqn:E.
+      + assert (Exy : c x y = Eq) by (apply eq_sym_c; exact E).
+        constructor; [exact H|]. constructor.
+        * right. split; assumption.
+        * rewrite Forall_forall in *. intros a Ha. apply CASE; [apply Hy; exact Ha | congruence | apply Pt; exact Ha].
+      + constructor; [apply IH; assumption|].
+        eapply Permutation_Forall; [symmetry; apply ins_perm|].
+        constructor; [left; exact E | exact Hy].
+      + assert (Exy : c x y = Lt) by (apply gt_flip; exact E).
+        constructor; [exact H|]. constructor.
+        * left. exact Exy.
+        * rewrite Forall_forall in *. intros a Ha. apply CASE; [apply Hy; exact Ha | congruence | apply Pt; exact Ha].
+  Qed.
+
   (* the "less" predicate handed to std::stable_sort is a strict weak ordering *)
   Theorem ltb_strict_weak :
     (forall x, ltb x x = false) /\
@@ -188,3 +241,47 @@ Section Generic.
       rewrite S, (eq_trans_c _ _ _ Q Q2). reflexivity.
   Qed.
 End Generic.
+
+(* lexicographic combination and reversal of total preorders *)
+Section Combine.
+  Variable A : Type.
+
+  Definition lexc (c1 c2 : A -> A -> comparison) (x y : A) : comparison :=
+    match c1 x y with Eq => c2 x y | r => r end.
+  Definition revc (c1 : A -> A -> comparison) (x y : A) : comparison := CompOpp (c1 x y).
+
+  Lemma revc_tp : forall c1, total_preorder A c1 -> total_preorder A (revc c1).
+  Proof.
+    intros c1 [R S T]. unfold revc. split.
+    - intros x. rewrite R. reflexivity.
+    - intros x y. rewrite (S x y). reflexivity.
+    - intros x y z H1 H2. rewrite (S z x), CompOpp_involutive.
+      rewrite (S y x), CompOpp_involutive in H1. rewrite (S z y), CompOpp_involutive in H2.
+      apply (T z y x); assumption.
+  Qed.
+
+  Lemma lexc_tp : forall c1 c2, total_preorder A c1 -> total_preorder A c2 -> total_preorder A (lexc c1 c2).
+  Proof.
+    intros c1 c2 T1 T2. unfold lexc. split.
+    - intros x. rewrite (tp_refl _ _ T1). apply (tp_refl _ _ T2).
+    - intros x y. rewrite (tp_sym _ _ T1 x y). destruct (c1 x y); simpl; try reflexivity. apply (tp_sym _ _ T2).
+    - intros x y z H1 H2.
+      destruct (c1 x y) eqn:E1; try congruence; destruct (c1 y z) eqn:E2; try congruence.
+      + rewrite (eq_trans_c _ _ T1 _ _ _ E1 E2). apply (tp_trans _ _ T2 x y z); assumption.
+      + rewrite (eq_lt_trans _ _ T1 _ _ _ E1 E2). congruence.
+      + rewrite (lt_eq_trans _ _ T1 _ _ _ E1 E2). congruence.
+      + rewrite (lt_trans_c _ _ T1 _ _ _ E1 E2). congruence.
+  Qed.
+
+  Lemma const_eq_tp : total_preorder A (fun _ _ => Eq).
+  Proof. split; intro; intros; simpl; congruence. Qed.
+
+  (* pulling a total preorder back along a function *)
+  Lemma pullback_tp : forall B (f : A -> B) cb, total_preorder B cb -> total_preorder A (fun x y => cb (f x) (f y)).
+  Proof.
+    intros B f cb [R S T]. split.
+    - intros x. apply R.
+    - intros x y. apply S.
+    - intros x y z. apply T.
+  Qed.
+End Combine.
